@@ -11,7 +11,7 @@ import JjModel.Drv.Util
   `<log>`: operations in creation order separated by `|`, one operation
   `<parents>/<desc>/<heads>,<bookmarks>,<tags>,<remotes>,<gitRefs>,<gitHeads>,<wc>` with
   `<parents>` a `List Nat`, `<desc>` = `r` | `u<idx>` | `d<idx>`; `<what>` = letters `r` (repo),
-  `t` (remote-tracking) or `-`; `<imm>` = `0`/`1`.
+  `t` (remote-tracking) or `-`; `<imm>` = the wc portions whose commit is immutable for this command (`List Nat`).
   Answer: `nochange` | `ok/<desc>/<view>[/newwc]` | `err:<kind>` | `unmodelled`.
 -/
 namespace JjModel.Drv.C41
@@ -66,15 +66,15 @@ def showRes : Except Err Outcome → String
 
 def handle : List String → Option String
   | ["undo", head, imm, log] => do
-    some (showRes (cmdUndo (← parseLog log) (← head.toNat?) (← parseBool imm)))
+    some (showRes (cmdUndo (← parseLog log) (← head.toNat?) (← parseNatList imm)))
   | ["redo", head, imm, log] => do
-    some (showRes (cmdRedo (← parseLog log) (← head.toNat?) (← parseBool imm)))
+    some (showRes (cmdRedo (← parseLog log) (← head.toNat?) (← parseNatList imm)))
   | ["restore", head, target, what, imm, log] => do
     some (showRes (cmdRestore (← parseLog log) (← head.toNat?) (← target.toNat?) (← parseWhat what)
-      (← parseBool imm)))
+      (← parseNatList imm)))
   | ["revert", head, target, what, imm, log] => do
     match cmdRevert (← parseLog log) (← head.toNat?) (← target.toNat?) (← parseWhat what)
-      (← parseBool imm) with
+      (← parseNatList imm) with
     | .ok none => some "unmodelled"
     | .ok (some o) => some (showOutcome o)
     | .error e => some (showErr e)
